@@ -26,7 +26,9 @@ def run(chk):
     cells = rows * nlev * 4            # x 4 integer-argument variants (rows without integer arguments run one)
     per = (cells + vf.NCPU - 1) // vf.NCPU
     chk.run('asan', exe, per, timeout=1200)
-    chk.rule = ('case = one row of the frozen guard table gen/c16_guards.tsv (entry point or class-table slot, pointer parameter set to NULL, '
+    chk.rule = ('case = one row of the frozen guard tables gen/c16_guards.tsv (guard macro in the function itself, or in the callee of a thin wrapper / constructor) and '
+                'gen/c16_transitive.tsv (guard further down the call chain: positions observed to be refused by a guard on the repaired tree, tools/c16_probe.py) '
+                '(entry point or class-table slot, pointer parameter set to NULL, '
                 'other arguments valid samples) x (runtime debug level, silent) cell; each runs in a forked child; oracle: documented failure value, '
                 'no allocation inside the call (ASan malloc hook), other arguments bit-identical (two-level heap snapshot), normal exit; at level >=1 '
                 'alternatively exit 255 with a FATAL diagnostic (no diagnostic required when output is silenced); integer arguments of the call take the variants '
@@ -39,7 +41,8 @@ def run(chk):
         chk.cov['entry_points_vs_frozen_table'] = json.loads(d.strip().splitlines()[-1])
     except Exception as e:
         chk.cov['entry_points_vs_frozen_table'] = 'diff failed: %s' % e
-    chk.assumptions += ['"documented to guard" = guarded in the pinned tree (frozen table gen/c16_guards.tsv); functions that never guarded are listed there as #UNGUARDED and not judged',
+    chk.cov['rows_guarded_further_down_the_call_chain'] = sum(1 for l in open(os.path.join(vf.ROOT, 'gen', 'c16_transitive.tsv')) if l.strip() and not l.startswith('#'))
+    chk.assumptions += ['"documented to guard" = guarded in the pinned tree (frozen table gen/c16_guards.tsv), or refused by a guard of a callee with a guard diagnostic when called with NULL on the repaired tree (gen/c16_transitive.tsv); positions that never guarded are not judged',
                         'guards whose failure value is itself a call with effects (e.g. spif_str_init(self)) are outside the statement\'s value set and skipped']
     chk.require('soft_fail_level0', rows - 5)
     chk.require('silent_cells', rows)
